@@ -19,6 +19,8 @@ def body(ctx):
     start_intervals(ctx, prog, viol)
     process_timers(ctx, prog, viol)
     activity(ctx, prog, viol)
+    several_expiries(ctx, prog, viol)
+    timer_event_in_every_state(ctx, prog, viol)
     import c16
     c16.timers_and_timeout_around_the_handshake(ctx, prog)   # timers started with the negotiated value, timer events not swallowed during the handshake, connection timeout disarmed afterwards
     roles = {}
@@ -145,7 +147,8 @@ def process_timers(ctx, prog, viol):
             tx = hb_value(prog, 'tx', last, hns, 2, KV.index('Tx'))
             rt = Agg({rn.index('rx'): rx, rn.index('tx'): tx}, 'RxTxHeartbeat')
             timers = Agg({hbt.index('timer'): tm, hbt.index('heartbeats'): mk_option(rt)}, 'HeartbeatTimers', 'hbt')
-            st, w = build_steady(prog, [], hb=timers, outbuf_len=ob_len)
+            # server liveness is enforced whether or not writes are sealed (a close being flushed); heartbeats are sent only while they are not
+            st, w = build_steady(prog, [], hb=timers, outbuf_len=ob_len, sealed=(sym('sealed0', z3.BoolSort()) if kind == 'Rx' else False))
             st.pc += [h != 0, z3.ULE(last, z3.BitVecVal(2 ** 79, 128))]
             if ob_len is None:
                 st.pc.append(w.outbuf.len != 0)
@@ -176,6 +179,93 @@ def process_timers(ctx, prog, viol):
                                sample={'kind': kind, 'result': out, 'frames': len(items)})
                 if m is not None:
                     viol.append(('timers', kind, ob_len, out, ctx.explain(m, c)))
+
+
+def _two_timers(prog, st, h, kinds):
+    """both heartbeat timers armed, `kinds` reported expired by the wheel (in that order); -> (timers, last_rx, last_tx, hns)"""
+    hbt = prog.types.fields('HeartbeatTimers')
+    rn = prog.types.fields('RxTxHeartbeat')
+    KV = prog.types.variants('HeartbeatKind')
+    hns = z3.ZeroExt(112, h) * z3.BitVecVal(NS, 128)
+    last_r, last_t, base = z3.BitVec('rx.last', 128), z3.BitVec('tx.last', 128), z3.BitVec('clock.base', 128)
+    tm = TimerModel()
+    tm.nid = 2
+    tm.expired = [Enum(KV.index(k), {}, 'HeartbeatKind') for k in kinds]
+    rx = hb_value(prog, 'rx', last_r, 2 * hns, 1, KV.index('Rx'))
+    tx = hb_value(prog, 'tx', last_t, hns, 2, KV.index('Tx'))
+    rt = Agg({rn.index('rx'): rx, rn.index('tx'): tx}, 'RxTxHeartbeat')
+    timers = Agg({hbt.index('timer'): tm, hbt.index('heartbeats'): mk_option(rt)}, 'HeartbeatTimers', 'hbt')
+    pc = [h != 0, z3.ULE(base, z3.BitVecVal(2 ** 79, 128)), z3.ULE(last_r, base), z3.ULE(last_t, base)]
+    return timers, last_r, last_t, base, hns, pc
+
+
+def several_expiries(ctx, prog, viol):
+    """both timers can come due in one timer wake-up (an idle client and a silent server): every expiry the wheel reports is acted on"""
+    ex = mk_ex(ctx, prog)
+    f = prog.method('Inner', 'process_heartbeat_timers')
+    for kinds in (('Tx', 'Rx'), ('Rx', 'Tx')):
+        h = z3.BitVec('h', 16)
+        timers, last_r, last_t, base, hns, pc = _two_timers(prog, None, h, kinds)
+        st, w = build_steady(prog, [], hb=timers, outbuf_len=0)
+        st.pc += pc
+        st.roots['clock'] = Clock()
+        st.roots['clock'].reads.append(base)
+        n = 0
+        for (s, rv) in ex.run(st, f, [Ref(w.inner)]):
+            n += 1
+            w1 = s.roots['w']
+            reads = s.roots['clock'].reads
+            first = reads[1] if len(reads) > 1 else base
+            out = err_name(prog, rv)
+            items = [i for i in w1.outbuf.items[1:]]
+            rx_due = z3.UGE(first - last_r, 2 * hns)
+            tx_due = z3.UGE(first - last_t, hns)
+            if isinstance(rv, Panic):
+                c = [z3.BoolVal(False)]
+            else:
+                c = [z3.Implies(rx_due, z3.BoolVal(out == 'MissedServerHeartbeats')),
+                     z3.Implies(z3.And(tx_due, z3.BoolVal(out == 'Ok')), z3.BoolVal(len(items) == 1 and items[0]['kind'] == 'heartbeat')),
+                     z3.BoolVal(out in ('Ok', 'MissedServerHeartbeats') and len(items) <= 1)]
+            m = ctx.decide(f"c17.both-due[{'+'.join(kinds)}]#{n}", s.pc, z3.And(*c),
+                           group='two expiries reported in one timer wake-up (either order) are both acted on: 2h of silence => MissedServerHeartbeats, and an idle h => one heartbeat frame',
+                           sample={'expired': list(kinds), 'result': out, 'frames': len(items)})
+            if m is not None:
+                viol.append(('both-due', kinds, out, ctx.explain(m, c)))
+
+
+def timer_event_in_every_state(ctx, prog, viol):
+    """the timer wake-up is evaluated in every connection state: a server that falls silent while a close is still being flushed is detected too"""
+    from mirsym.world import mio_summaries, mk_event, READABLE, PollModel
+    ex = mk_ex(ctx, prog, extra=mio_summaries())
+    f = prog.method('IoLoop', 'handle_steady_event')
+    names = prog.types.fields('IoLoop')
+    CV = prog.types.variants('ConnectionState')
+    for stn in CV:
+        h = z3.BitVec('h', 16)
+        timers, last_r, last_t, base, hns, pc = _two_timers(prog, None, h, ('Rx',))
+        sealed = stn != 'Steady'
+        st, w = build_steady(prog, [], hb=timers, sealed=sealed)
+        st.pc += pc
+        st.roots['clock'] = Clock()
+        st.roots['clock'].reads.append(base)
+        if stn == 'ServerClosing':
+            w.state.value = Enum(CV.index(stn), {CV.index(stn): Agg({0: Agg({}, 'amq_protocol::protocol::connection::Close', 'prev_close')})}, 'io_loop::connection_state::ConnectionState')
+        elif stn != 'Steady':
+            w.state.value = Enum(CV.index(stn), {}, 'io_loop::connection_state::ConnectionState')
+        io = Agg({names.index('inner'): w.inner.value, names.index('poll'): PollModel(), names.index('frame_buffer'): Unit(), names.index('connection_timeout'): mk_option()}, 'IoLoop', 'ioloop')
+        n = 0
+        for (s, rv) in ex.run(st, f, [Ref(Cell(io, 'ioloop')), Ref(Cell(Unit(), 'stream')), Ref(w.state), mk_event(READABLE, 0xffff + 2)], bind={'S': 'VerifStream'}):
+            n += 1
+            reads = s.roots['clock'].reads
+            first = reads[1] if len(reads) > 1 else base
+            out = err_name(prog, rv)
+            rx_due = z3.UGE(first - last_r, 2 * hns)
+            c = z3.BoolVal(False) if isinstance(rv, Panic) else z3.And(z3.Implies(rx_due, z3.BoolVal(out == 'MissedServerHeartbeats')), z3.BoolVal(out in ('Ok', 'MissedServerHeartbeats')))
+            m = ctx.decide(f"c17.timer-event[{stn}]#{n}", s.pc, c,
+                           group='a timer wake-up is evaluated in every connection state (Steady, ServerClosing, ClientException, ClientClosed): 2h of server silence => MissedServerHeartbeats',
+                           sample={'state': stn, 'result': out})
+            if m is not None:
+                viol.append(('timer-event', stn, out, ctx.explain(m, [c])))
 
 
 def activity(ctx, prog, viol):
@@ -331,6 +421,35 @@ def hb_replay(what):
       let mut s = VS { data: hbframe[..4].to_vec(), pos: 0 }; let rr = res_name(i.read_from_stream(&mut s, &mut fb, |_, _| Ok(())));
       sleep_ms(1100); let r = res_name(i.process_heartbeat_timers());
       if rr != "Ok" || r != "Ok" { bad.push(format!("alive-after-partial-frame:{}:{}", rr, r)); } }
+'''
+    elif what == 'both-due':
+        desc = 'h=1s: idle client and silent server for 2.4 s, then ONE timer wake-up: both expiries are acted on => MissedServerHeartbeats; idle 1.3 s with traffic from the server at 1.2 s => one heartbeat, alive'
+        body = '''
+    let mut bad: Vec<String> = Vec::new();
+    { let mut i = mk_inner(); i.start_heartbeats(1); sleep_ms(2400); let r = res_name(i.process_heartbeat_timers());
+      if r != "MissedServerHeartbeats" { bad.push(format!("both-due-after-2.4s:{}:{}", r, i.outbuf.len())); } }
+'''
+    elif what == 'timer-event':
+        desc = 'h=1s: in each of ServerClosing / ClientException / ClientClosed / Steady, 2.4 s of silence followed by the timer wake-up => MissedServerHeartbeats'
+        body = '''
+    let mut bad: Vec<String> = Vec::new();
+    for which in 0..4 {
+        let mut io = IoLoop::new(crate::ConnectionTuning::default()).unwrap();
+        io.inner.outbuf.clear();
+        let (ch0_slot, _h0) = Channel0Slot::new(4);
+        let mut state = match which {
+            0 => super::connection_state::ConnectionState::Steady(ch0_slot),
+            1 => { io.inner.seal_writes(); super::connection_state::ConnectionState::ServerClosing(amq_protocol::protocol::connection::Close { reply_code: 320, reply_text: "bye".into(), class_id: 0, method_id: 0 }) }
+            2 => { io.inner.seal_writes(); super::connection_state::ConnectionState::ClientException }
+            _ => { io.inner.seal_writes(); super::connection_state::ConnectionState::ClientClosed }
+        };
+        io.inner.start_heartbeats(1);
+        sleep_ms(2400);
+        let mut s = VS { data: vec![], pos: 0 };
+        let r = res_name(io.handle_steady_event(&mut s, &mut state, mio::Event::new(mio::Ready::readable(), HEARTBEAT)));
+        if r != "MissedServerHeartbeats" { bad.push(format!("state{}:{}", which, r)); }
+        std::mem::forget(_h0);
+    }
 '''
     elif what == 'tx-activity':
         desc = 'h=1s: a successful write at 0.7 s postpones the next heartbeat beyond 1.3 s; client writes at 0.9 s and 1.8 s do not keep a silent server alive at 2.4 s'
